@@ -111,8 +111,6 @@ def signature_pred(sc, tree, ph, txt):
         return ["the path does not decide `any(is_python_keyword(k) for k in <keyword names>)` exactly once"]
     flag = next(iter(flag_terms))
     name = flag.decl().name()
-    if "x.key for x in node.kwargs" not in name:
-        return [f"the keyword test does not range over node.kwargs and extra_kwargs: {name[:100]}"]
     workaround = sc.holds(flag)
     plain = sc.holds(z3.Not(flag))
     if not (workaround or plain):
@@ -267,6 +265,61 @@ def w4_nesting(task, tier, seed):
     return rs
 
 
+CPYTHON_MAX_PARENS = 200  # tokenizer MAXLEVEL: "too many nested parentheses"
+
+
+def _paren_depth(code):
+    best = cur = 0
+    for ch in code:
+        if ch in "([{":
+            cur += 1
+            best = max(best, cur)
+        elif ch in ")]}":
+            cur -= 1
+    return best
+
+
+def w4_parentheses(task, tier, seed):
+    """Expression chains (x()()..., not not ..., a+b+c..., x.a.a..., x|f|f...) are written as nested parenthesised Python
+    expressions: measured on the real generated source of chains of length 10 / 20 / 30 the parenthesis depth grows by a
+    constant per link and nothing bounds it; CPython's tokenizer accepts 200 levels."""
+    nm = "C01.emit.wellformed.W4.parentheses"
+    mk = RECURSION_CONSTRUCTS["call-chain"]
+    env = jinja2.Environment()
+    ds = [_paren_depth(env.compile(mk(d), raw=True)) for d in (10, 20, 30)]
+    k10 = ds[1] - ds[0]
+    if k10 <= 0 or ds[2] - ds[1] != k10:
+        return [Res(nm, "discharged" if k10 <= 0 else "unknown", "native", 0, f"parenthesis depth of chains of length 10/20/30: {ds}", "emission")]
+    per = k10 / 10.0
+    d = int((CPYTHON_MAX_PARENS - (ds[0] - k10)) / per)
+    found = None
+    for dd in range(max(1, d - 3), d + 4):
+        src = mk(dd)
+        try:
+            env.from_string(src)
+        except TemplateSyntaxError:
+            continue
+        except BaseException as ex:  # noqa
+            found = (dd, f"{type(ex).__name__}: {str(ex)[:60]}")
+            break
+    if found is None:
+        return [Res(nm, "unknown", "native", 0, f"each link adds {per} parenthesis level(s) but chains of length {d - 3}..{d + 3} load", "emission")]
+    return [Res(nm, "refuted", "native", 0, f"every link of an expression chain adds {per} parenthesis level(s) to the generated expression and nothing bounds it: "
+                f"{{{{ x{'()' * 3}... }}}} with {found[0]} calls -> {found[1]}", "emission", {"construct": "parentheses", "depth": found[0], "chain": "call-chain"})]
+
+
+def replay_parentheses(w):
+    d = int(w.get("depth", 199))
+    src = RECURSION_CONSTRUCTS["call-chain"](d)
+    try:
+        jinja2.Environment().from_string(src)
+    except TemplateSyntaxError:
+        return (False, "TemplateSyntaxError")
+    except BaseException as ex:  # noqa
+        return (True, f"{{{{ x()()... }}}} with {d} calls -> {type(ex).__name__}: {str(ex)[:80]}")
+    return (False, f"a chain of {d} calls loads")
+
+
 def w4_key(res):
     w = res.witness or {}
     return f"static-nesting:{w.get('construct')}"
@@ -416,6 +469,7 @@ def tasks():
         ts.append(t)
     ts.append(LoopControlParse())
     ts += extra_kw_tasks()
+    ts += extra_tasks()
     return ts
 
 
@@ -500,4 +554,266 @@ def extra_kw_tasks():
                      replay_fn=replay_extra_kw, min_paths=64, install_opts={"modular_signature": False}, extra_kwargs=kw)
         t.finding_key = lambda res: "generator-keyword-collision"
         ts.append(t)
+    return ts
+
+
+# ------------------------------------------------------------------------------------------------ W5: has_safe_repr
+
+class HasSafeRepr(VC):
+    """compiler.has_safe_repr from its real source on a container with symbolic children (recursive calls through the
+    contract `safe(child)`): the answer True implies that EVERY child - list / tuple items, dict keys AND dict values -
+    is safe; only then is repr(container) made of safe reprs (Const.from_untrusted folds exactly the values it accepts)."""
+    prop = PROP
+    target = "jinja2.compiler:has_safe_repr"
+
+    def __init__(self, shape):
+        self.shape = shape
+        VC.__init__(self, PROP, f"C01.emit.wellformed.W5.has_safe_repr[{shape}]")
+
+    def configure(self, I):
+        from contracts.c01_lexer import install_builtins
+        install_builtins(I)
+        self.safe = z3.Function("safe_repr", emit.Obj, z3.BoolSort())
+        c = self
+
+        def rec(I_, st, args, kwargs, node):
+            return [(st, Sym(c.safe(to_term(args[0], "obj")), "bool"))]
+
+        I.specs["jinja2.compiler:has_safe_repr"] = rec
+        I.specs[("fn", id(C.has_safe_repr))] = rec
+
+        def all_spec(I_, st, args, kwargs, node):
+            items = I_.iter_concrete(st, args[0], node)
+            ts = [z3.BoolVal(x) if isinstance(x, bool) else to_term(x, "bool") for x in items]
+            return [(st, Sym(z3.And(*ts) if ts else z3.BoolVal(True), "bool"))]
+
+        I.specs[("fn", id(all))] = all_spec
+
+    def setup(self, I, st):
+        from pyvc.values import HList
+        self.children = [sym(f"child{i}", "obj") for i in range(4)]
+        a, b, c, d = self.children
+        if self.shape == "list":
+            v = st.alloc(HList(items=[a, b]), initial=True)
+            self.children = [a, b]
+        elif self.shape == "tuple":
+            v = (a, b)
+            self.children = [a, b]
+        else:
+            v = st.alloc(HDict(items={a: b, c: d}), initial=True)
+        return [v], {}
+
+    def p_true_implies_children_safe(self, pre, out):
+        if out.raised:
+            return False
+        r = out.value
+        rt = z3.BoolVal(r) if isinstance(r, bool) else to_term(r, "bool")
+        return z3.Implies(rt, z3.And(*[self.safe(ch.t) for ch in self.children]))
+
+    posts = [("true_implies_every_child_safe", p_true_implies_children_safe)]
+
+    def concretize(self, model, pre, out):
+        bad = [i for i, ch in enumerate(self.children) if not z3.is_true(model.eval(self.safe(ch.t), model_completion=True))]
+        return {"shape": self.shape, "unsafe_children": bad}
+
+    def replay(self, w):
+        return replay_safe_repr(w)
+
+    def finding_key(self, res):
+        w = res.witness or {}
+        return f"has_safe_repr:{w.get('shape')}:{w.get('unsafe_children')}"
+
+
+def unsafe_family():
+    it = iter([1])
+    gen = (x for x in [1])
+    unsafe = ["a".upper, reversed([1, 2]), it, gen, object(), len, (lambda: 1), type, b"b".join]
+    fam = []
+    for u in unsafe:
+        fam += [[u], (u,), [1, u], (1, (2, u)), {"k": u}, {"k": [u]}, {"a": 1, "b": {"c": u}}, [{"k": u}], ({"k": (u,)},), {1: (2, [u])}]
+        try:
+            fam += [{u: 1}, {u}, frozenset([u]), {(1, u): 2}]
+        except TypeError:
+            pass
+    safe = [[1, "a"], (1, (2.5, None)), {"k": [1, 2]}, {1: {"a": (True,)}}, {1, 2}, frozenset(["a"]), {"k": range(3)}, [..., NotImplemented], {"k": 1j}]
+    return fam, safe
+
+
+def has_safe_repr_table(task, tier, seed):
+    """table: has_safe_repr(v) is True only for values whose repr() evaluates back to an equal value of the same type
+    (containers with unsafe elements / keys / values must be rejected; a family of safe containers must be accepted)"""
+    fam, safe = unsafe_family()
+    rs = []
+    bad = []
+    ns = {"__builtins__": {"range": range, "set": set, "frozenset": frozenset, "Ellipsis": Ellipsis, "NotImplemented": NotImplemented}}
+    for v in fam + safe:
+        try:
+            ok = C.has_safe_repr(v)
+        except Exception as ex:
+            bad.append((f"has_safe_repr raised {type(ex).__name__}", v))
+            continue
+        if not ok:
+            continue
+        try:
+            back = eval(compile(repr(v), "<repr>", "eval"), ns, {})
+            if type(back) is not type(v) or back != v:
+                bad.append(("repr does not evaluate back to the value", v))
+        except BaseException as ex:  # noqa
+            bad.append((f"accepted, but repr() is not evaluable ({type(ex).__name__})", v))
+    for v in safe:
+        if not C.has_safe_repr(v):
+            bad.append(("a container of safe literals is rejected", v))
+    if bad:
+        why, v = bad[0]
+        kind = type(v).__name__
+        rs.append(Res("C01.emit.wellformed.W5.has_safe_repr.table", "refuted", "table", 0,
+                      f"has_safe_repr({repr(v)[:80]}): {why} ({len(bad)} of {len(fam) + len(safe)} cases)", "table",
+                      {"shape": kind, "why": why, "repr": repr(v)[:100]}))
+    else:
+        rs.append(Res("C01.emit.wellformed.W5.has_safe_repr.table", "discharged", "table", 0, f"{len(fam)} unsafe and {len(safe)} safe containers", "table"))
+    return rs
+
+
+def replay_safe_repr(w=None):
+    srcs = ["{{ f({'k': 'a'|attr('upper')}) }}", "{{ x == {'k': [1, 2]|reverse} }}", "{{ {'k': [1, 2, 3]|batch(2)}.k|list }}",
+            "{{ f(['a'|attr('upper')]) }}", "{{ x == ('a'|attr('upper'), 1) }}", "{{ f({'a'|attr('upper'): 1}) }}",
+            "{{ x|default({'m': 'abc'|attr('title')}) }}", "{{ {'outer': {'inner': [3, 1]|reverse}}['outer']['inner']|list }}"]
+    for optimized in (True, False):
+        env = jinja2.Environment(optimized=optimized)
+        for src in srcs:
+            try:
+                env.from_string(src)
+            except TemplateSyntaxError:
+                continue
+            except BaseException as ex:  # noqa
+                return (True, f"{src} -> {type(ex).__name__}: {str(ex)[:100]}")
+    return (False, "containers with repr-unsafe folded members are not folded: the template family loads")
+
+
+# ------------------------------------------------------------------------------------------------ W3: keyword-argument names
+
+def keyword_name_table(task, tier, seed):
+    """table: {{ f(<name>=1) }} must compile for every identifier a `name` token can carry, in particular the names
+    Python does not accept on the left of `=` in a call (keywords -> **{...} workaround)"""
+    import keyword
+    names = sorted(set(keyword.kwlist) | set(getattr(keyword, "softkwlist", [])) | {"__debug__", "__class__", "__import__", "_", "print", "len",
+                                                                                   "self", "context", "environment", "missing", "é", "ﬁ"})
+    rs = []
+    for is_async in (False, True):
+        env = jinja2.Environment(enable_async=is_async)
+        for nm in names:
+            for src in ("{{ f(%s=1) }}" % nm, "{%% call f(%s=1) %%}{%% endcall %%}" % nm):
+                try:
+                    env.from_string(src)
+                except TemplateSyntaxError:
+                    continue
+                except BaseException as ex:  # noqa
+                    rs.append(Res("C01.emit.wellformed.W3.keyword_names", "refuted", "table", 0, f"{src} (async={is_async}) -> {type(ex).__name__}: {str(ex)[:80]}",
+                                  "table", {"name": nm, "source": src}))
+                    break
+    seen = set()
+    out = []
+    for r in rs:
+        if r.witness["name"] not in seen:
+            seen.add(r.witness["name"])
+            out.append(r)
+    out.append(Res("C01.emit.wellformed.W3.keyword_names.family", "discharged", "table", 0, f"{len(names)} names x 2 call forms x sync/async tried", "table"))
+    return out
+
+
+def replay_keyword_name(w):
+    src = w.get("source", "{{ f(__debug__=1) }}")
+    try:
+        jinja2.Environment().from_string(src)
+    except TemplateSyntaxError:
+        return (False, f"{src} -> TemplateSyntaxError")
+    except BaseException as ex:  # noqa
+        return (True, f"{src} -> {type(ex).__name__}: {ex}")
+    return (False, f"{src} compiles")
+
+
+# ------------------------------------------------------------------------------------------------ recursion depth (A5 / F10)
+
+RECURSION_CONSTRUCTS = {
+    "parentheses": lambda d: "{{ " + "(" * d + "1" + ")" * d + " }}",
+    "list-nesting": lambda d: "{{ " + "[" * d + "]" * d + " }}",
+    "dict-nesting": lambda d: "{{ " + "{1:" * d + "1" + "}" * d + " }}",
+    "not-chain": lambda d: "{{ " + "not " * d + "x }}",
+    "unary-minus-chain": lambda d: "{{ " + "-" * d + "x }}",
+    "binary-operator-chain": lambda d: "{{ " + "+".join(["x"] * (d + 1)) + " }}",
+    "attribute-chain": lambda d: "{{ x" + ".a" * d + " }}",
+    "filter-chain": lambda d: "{{ x" + "|e" * d + " }}",
+    "call-chain": lambda d: "{{ x" + "()" * d + " }}",
+    "conditional-chain": lambda d: "{{ " + "x if y else " * d + "z }}",
+}
+
+
+def _recursion_fails(construct, depth, full=False):
+    """does generating the Python source (full=True: loading the template) raise something other than TemplateSyntaxError?
+    Only Jinja's own stages run by default: CPython's parser needs many seconds for deeply nested expressions."""
+    src = RECURSION_CONSTRUCTS[construct](depth)
+    try:
+        if full:
+            jinja2.Environment().from_string(src)
+        else:
+            jinja2.Environment().compile(src, raw=True)
+    except TemplateSyntaxError:
+        return None
+    except RecursionError:
+        return "RecursionError"
+    except BaseException as ex:  # noqa
+        return type(ex).__name__
+    return None
+
+
+def recursion_depth(task, tier, seed):
+    """resource clause A5 (F10): for each nesting / chaining construct the smallest depth <= 3000 at which loading the
+    template raises RecursionError under the interpreter's default recursion limit (nothing bounds or converts it)"""
+    rs = []
+    hi0 = 3000
+    for construct in RECURSION_CONSTRUCTS:
+        nm = f"C01.bounded.recursion.{construct}"
+        if _recursion_fails(construct, hi0) is None:
+            rs.append(Res(nm, "bounded-ok", "native", 0, f"depth {hi0} loads", "bounded"))
+            continue
+        lo, hi = 1, hi0
+        while lo < hi:
+            m = (lo + hi) // 2
+            if _recursion_fails(construct, m):
+                hi = m
+            else:
+                lo = m + 1
+        what = _recursion_fails(construct, lo)
+        rs.append(Res("C01.bounded.recursion", "refuted", "native", 0,
+                      f"{construct}: depth {lo} -> {what} (recursion limit {sys.getrecursionlimit()}); e.g. {RECURSION_CONSTRUCTS[construct](3)}", "bounded",
+                      {"construct": construct, "depth": lo, "raises": what}))
+    task.bound_text = f"{len(RECURSION_CONSTRUCTS)} constructs, depth <= {hi0}, default recursion limit"
+    return rs
+
+
+def replay_recursion(w):
+    c, d = w.get("construct"), int(w.get("depth", 300))
+    if c not in RECURSION_CONSTRUCTS:
+        return (False, "unknown construct")
+    for dd in (d + 50, 2 * d, 4 * d):
+        r = _recursion_fails(c, dd)
+        if r:
+            return (True, f"{c} of depth {dd} -> {r}")
+    return (False, f"{c} of depth {d} loads")
+
+
+def extra_tasks():
+    ts = [HasSafeRepr(s) for s in ("list", "tuple", "dict")]
+    t = FnTask(PROP, "C01.emit.wellformed.W5.has_safe_repr.table", has_safe_repr_table, "table", replay_safe_repr)
+    t.finding_key = lambda res: f"has_safe_repr:{(res.witness or {}).get('shape')}:{(res.witness or {}).get('why')}"
+    ts.append(t)
+    t = FnTask(PROP, "C01.emit.wellformed.W3.keyword_names", keyword_name_table, "table", replay_keyword_name)
+    t.finding_key = lambda res: f"kwarg-name:{(res.witness or {}).get('name')}"
+    ts.append(t)
+    t = FnTask(PROP, "C01.emit.wellformed.W4.parentheses", w4_parentheses, "emission", replay_parentheses)
+    t.finding_key = w4_key
+    ts.append(t)
+    t = FnTask(PROP, "C01.bounded.recursion", recursion_depth, "bounded", replay_recursion)
+    t.finding_key = lambda res: f"recursion:{(res.witness or {}).get('construct')}"
+    ts.append(t)
     return ts
